@@ -43,7 +43,7 @@ StressOK(c, r) ==
                          \* product and the sum are formed EXACTLY from the doubles that were passed (r.hd = the hop as a limb number);
                          \* one multiplication and one addition in floating point stay within one such unit, a running sum does not
                          /\ \A j \in DOMAIN r.segs :
-                               LET E == LAddMag(r.cs, IF j = 1 THEN LInt(0) ELSE LMulMag(r.hd, j - 1))
+                               LET E == LSumMag(r.cs, IF j = 1 THEN LInt(0) ELSE LMulMag(r.hd, j - 1))
                                IN  (j <= 32000 /\ E[2] < 32000) => LWithin(r.segs[j][1], E, LUlps4(E[2] + 1))
                          /\ \A k \in DOMAIN r.segs : /\ LLe(r.cs, r.segs[k][1])
                                                       /\ LLt(r.segs[k][1], r.segs[k][2])
